@@ -8,6 +8,7 @@ import NngModel.Model.Xreq
 import NngModel.Spec.RawReqRep
 import NngModel.Proofs.RepParse
 import NngModel.Proofs.BytesLemmas
+import NngModel.Generated.Base
 namespace Nng.RawProofs
 open Nng Nng.RepProofs
 open Nng.Msg (length_beEncode beDecode_beEncode)
